@@ -121,6 +121,30 @@ static FAIL_TO: [AtomicI64; NK] = [const { AtomicI64::new(-1) }; NK];
 static FAIL_P: [AtomicU32; NK] = [const { AtomicU32::new(0) }; NK];
 static FAIL_SEED: AtomicU64 = AtomicU64::new(0);
 static PLAN_IDX: [AtomicI64; NK] = [const { AtomicI64::new(0) }; NK];
+/// errno reported by injected mmap failures
+pub static FAIL_ERRNO: AtomicI64 = AtomicI64::new(libc::ENOMEM as i64);
+/// bounded progress for a search loop: more library executable-mmap attempts than this within one armed
+/// case means the search does not terminate; the pre-formatted outcome line is written and the child exits
+pub static ATTEMPT_CAP: AtomicI64 = AtomicI64::new(0);
+static ATTEMPTS: AtomicI64 = AtomicI64::new(0);
+static mut CAP_LINE: [u8; 2048] = [0; 2048];
+static CAP_LINE_LEN: AtomicUsize = AtomicUsize::new(0);
+
+#[allow(static_mut_refs)]
+pub fn arm_attempt_cap(cap: i64, outcome_line: &str) {
+    let b = outcome_line.as_bytes();
+    let n = b.len().min(2046);
+    unsafe {
+        CAP_LINE[..n].copy_from_slice(&b[..n]);
+        CAP_LINE[n] = b'\n';
+    }
+    CAP_LINE_LEN.store(n + 1, Ordering::SeqCst);
+    ATTEMPTS.store(0, Ordering::SeqCst);
+    ATTEMPT_CAP.store(cap, Ordering::SeqCst);
+}
+pub fn disarm_attempt_cap() {
+    ATTEMPT_CAP.store(0, Ordering::SeqCst);
+}
 
 pub fn arm_fail_range(kind: usize, from: i64, to: i64) {
     PLAN_IDX[kind].store(0, Ordering::SeqCst);
@@ -381,14 +405,25 @@ pub unsafe extern "C" fn mmap(
     e.flags = flags;
     if exec_anon {
         N_MMAP_EXEC.fetch_add(1, Ordering::Relaxed);
+        let cap = ATTEMPT_CAP.load(Ordering::Relaxed);
+        if cap > 0 && lib && ATTEMPTS.fetch_add(1, Ordering::Relaxed) > cap {
+            // the search has made far more attempts than its window has pages: it does not terminate
+            #[allow(static_mut_refs)]
+            {
+                let n = CAP_LINE_LEN.load(Ordering::SeqCst);
+                crate::out::raw(&CAP_LINE[..n]);
+            }
+            libc::_exit(75);
+        }
         maybe_delay(K_MMAP_EXEC);
         if should_fail(K_MMAP_EXEC) {
             N_INJECTED.fetch_add(1, Ordering::Relaxed);
             e.injected = 1;
             e.res = -1;
-            e.err = libc::ENOMEM;
+            let en = FAIL_ERRNO.load(Ordering::Relaxed) as i32;
+            e.err = en;
             push(e);
-            set_errno(libc::ENOMEM);
+            set_errno(en);
             return libc::MAP_FAILED;
         }
     }
